@@ -1,0 +1,17 @@
+//go:build verif
+
+// Contracts for casClonedBuffer.toChunkReader (properties C09 and C15): stream
+// clones share one read of the base buffer; if ANY clone needs the content
+// validated, the shared read is a validating one, whatever the order in which
+// the clones turn up, and the chunk size is the smallest any clone asked for.
+// Comment-only file.
+package buffer
+
+//@ func (*casClonedBuffer).toChunkReader
+//@   requires b.consumersRemaining >= 1 && b.base != nil && held(addr(b.lock)) == 0 && maximumChunkSizeBytes >= 0
+//@   ensures [validation-request-is-sticky] (old(b.needsValidation) || needsValidation) ==> b.needsValidation
+//@   ensures [never-switched-on-unasked] b.needsValidation ==> (old(b.needsValidation) || needsValidation)
+//@   ensures [one-consumer-accounted] b.consumersRemaining == old(b.consumersRemaining) - 1
+//@   ensures [chunk-size-only-shrinks] b.maximumChunkSizeBytes <= maximumChunkSizeBytes
+//@         && (old(b.maximumChunkSizeBytes) >= 0 ==> b.maximumChunkSizeBytes <= old(b.maximumChunkSizeBytes))
+//@   loop 0 invariant -1 <= rangeindex && held(addr(b.lock)) == 2 && unchanged(b.needsValidation) == unchanged(b.needsValidation)
